@@ -151,7 +151,7 @@ func runC09(line string) string {
 	if sc == "stop-while-binding" {
 		blocker, _ = net.Listen("tcp", addr) // no SO_REUSEPORT: the processor's bind keeps failing
 	}
-	p, err := proc.New(fmt.Sprintf("c09x%d", port), cfg, hosts)
+	p, err := proc.New(fmt.Sprintf("c09x%d", nextProcSeq()), cfg, hosts)
 	if err != nil {
 		return "NEW-FAILED:" + err.Error()
 	}
@@ -330,7 +330,7 @@ func runLimitBurst(l, n int) string {
 	addr := fmt.Sprintf("127.0.0.1:%d", port)
 	cfg := tcpConfig(port)
 	cfg.Listener.ConnectionLimit = uint32(l)
-	p, err := proc.New(fmt.Sprintf("c09l%d", port), cfg, []*host.Host{host.New(ln.Addr().String())})
+	p, err := proc.New(fmt.Sprintf("c09l%d", nextProcSeq()), cfg, []*host.Host{host.New(ln.Addr().String())})
 	if err != nil {
 		return "NEW-FAILED"
 	}
